@@ -1,0 +1,14 @@
+//go:build verif
+
+package rp
+
+// VerifLazyFields exposes, for the verification harness (property C20), the
+// lazily initialised fields of a relying party without triggering the lazy
+// getters: whether idTokenVerifier is set, and the two handler funcs.
+func VerifLazyFields(r RelyingParty) (verifierSet bool, errorHandler, unauthorizedHandler any) {
+	p, ok := r.(*relyingParty)
+	if !ok {
+		return false, nil, nil
+	}
+	return p.idTokenVerifier != nil, p.errorHandler, p.unauthorizedHandler
+}
